@@ -58,7 +58,10 @@ func HarnessC03() {
 	pos := nondetRange("pos", 0, len(b)-1)
 	b[pos] = nondetByte("byte")
 	if vParam("nsym", 1) == 2 && pos+1 < len(b) {
+		// (two adjacent bytes: ASCII only - case mapping of symbolic
+		// multi-byte letters is not modelled)
 		b[pos+1] = nondetByte("byte")
+		vAssume(b[pos] < 0x80 && b[pos+1] < 0x80)
 	}
 	src := string(b)
 	obj, err := c03Compile(src)
